@@ -18,10 +18,11 @@ type SEnv struct {
 	pkg    string           // package path for type names
 	nowOld string           // value of $now in the old state (for fresh())
 	qn     *int
+	funs   map[string]FunDecl // witness functions: spec name -> declared symbol (Name = SMT symbol)
 }
 
 func (env *SEnv) with(name string, v Val) *SEnv {
-	n := &SEnv{vars: map[string]Val{}, act: env.act, header: env.header, pkg: env.pkg, nowOld: env.nowOld, qn: env.qn}
+	n := &SEnv{vars: map[string]Val{}, act: env.act, header: env.header, pkg: env.pkg, nowOld: env.nowOld, qn: env.qn, funs: env.funs}
 	for k, x := range env.vars {
 		n.vars[k] = x
 	}
@@ -600,6 +601,13 @@ func (fx *FX) specCall(x *SX, env *SEnv, cur, old *State) Val {
 			specErrf("no map range %d", n)
 		}
 		return Val{T: fx.sv(cur, name, srt), S: srt}
+	}
+	if f, ok := env.funs[name]; ok {
+		var ts []string
+		for i := range args {
+			ts = append(ts, ev(i).T)
+		}
+		return Val{T: App(f.Name, ts...), S: Sort(f.Ret)}
 	}
 	if d, ok := e.specs.Defines[name]; ok {
 		if len(d.Params) != len(args) {
